@@ -200,8 +200,6 @@ func atomObs(text string) string {
 	})
 }
 
-var sugar = map[string]bool{"Quote": true, "Caret": true, "Tilde": true, "TildeAt": true, "Backslash": true}
-
 // lastTok: kind and text of the last token of a fresh lexer over the text ("" if none or lexer error).
 func lastTok(text string) (string, string) {
 	toks, err := zygo.VerifLex(text)
@@ -209,22 +207,6 @@ func lastTok(text string) (string, string) {
 		return "", ""
 	}
 	return toks[len(toks)-1].Kind, toks[len(toks)-1].Text
-}
-
-// glitchy: the cut leaves the parser with a token queue that ends in a quote-sugar or backslash token,
-// or the first token that the rest of the text completes is a backslash (the three places where the
-// parser looks at the next token without waiting for it: known finding unguarded-end-of-chunk).
-func glitchy(text string, cut int) bool {
-	rs := []rune(text)
-	if cut > len(rs) {
-		cut = len(rs)
-	}
-	pre, _ := zygo.VerifLex(string(rs[:cut]))
-	if len(pre) > 0 && sugar[pre[len(pre)-1].Kind] {
-		return true
-	}
-	full, _ := zygo.VerifLex(text + "\n")
-	return len(pre) < len(full) && full[len(pre)].Kind == "Backslash"
 }
 
 // ---------- the chunk experiment ------------------------------------------------
@@ -241,6 +223,21 @@ type harness struct {
 	failH    int
 	emitted  map[string]bool
 	wholeMem map[string][2]string
+	lastMem  map[string]string
+}
+
+// lastOf: kind:text of the last token of the text (with its final newline), cached.
+func (h *harness) lastOf(text string) string {
+	if l, ok := h.lastMem[text]; ok {
+		return l
+	}
+	lk, lt := lastTok(text + "\n")
+	if len(h.lastMem) > 200000 {
+		h.lastMem = map[string]string{}
+	}
+	l := lk + ":" + zygo.VerifEsc(lt)
+	h.lastMem[text] = l
+	return l
 }
 
 // wholeOf: the observable of the whole-text parse, and whether an atom or a token was left behind
@@ -269,33 +266,9 @@ func (h *harness) chunkImpl(text string, cuts []int) (impl string, ok bool, expl
 	ds := deliver(h.p, pieces(text, cuts))
 	h.nChunk++
 	ok = ds[len(ds)-1] == w
-	var g []string
-	var rest []int
-	for _, c := range cuts {
-		if glitchy(text, c) {
-			g = append(g, strconv.Itoa(c))
-		} else {
-			rest = append(rest, c)
-		}
-	}
-	gs := "-"
-	if len(g) > 0 {
-		gs = strings.Join(g, ",")
-	}
-	// R: when the comparison fails and some cuts fall at a quote-sugar/backslash token (see glitchy),
-	// the same text delivered with only the other cuts.
-	rr := "-"
-	if !ok && len(g) > 0 {
-		d2 := deliver(h.p, pieces(text, rest))
-		if d2[len(d2)-1] == w {
-			rr = "ok"
-		} else {
-			rr = "fail"
-		}
-	}
-	lk, lt := lastTok(text + "\n")
+	gs, rr := "-", "-"
 	explained = rr == "ok"
-	impl = "W=" + w + " ;; P=" + strings.Join(ds, " | ") + " ;; G=" + gs + " ;; R=" + rr + " ;; L=" + lk + ":" + zygo.VerifEsc(lt) + " ;; K=" + kept
+	impl = "W=" + w + " ;; P=" + strings.Join(ds, " | ") + " ;; G=" + gs + " ;; R=" + rr + " ;; L=" + h.lastOf(text) + " ;; K=" + kept
 	return impl, ok, explained
 }
 
@@ -436,7 +409,7 @@ func main() {
 		"plus every string up to a length bound over the token alphabet for the token stream and the atom classifier; non-trivial = at least one cut / one earlier input / non-empty text"
 	env := zygo.NewZlisp()
 	env.StandardSetup()
-	h := &harness{out: out, env: env, p: env.VerifParser(), rng: lib.NewRng(a.Seed), emitted: map[string]bool{}, wholeMem: map[string][2]string{}}
+	h := &harness{out: out, env: env, p: env.VerifParser(), rng: lib.NewRng(a.Seed), emitted: map[string]bool{}, wholeMem: map[string][2]string{}, lastMem: map[string]string{}}
 	thorough := a.Tier == "thorough"
 	t0 := time.Now()
 	phases := map[string]float64{}
@@ -536,8 +509,8 @@ func main() {
 		h.chunk(t, nil, true, "text:corpus", "cuts:0")
 		n := len([]rune(t))
 		step := 1
-		if !thorough && n > 300 {
-			step = n / 300
+		if !thorough && n > 150 {
+			step = n / 150
 		}
 		off := h.rng.Intn(step)
 		for c := off; c <= n; c += step {
